@@ -559,7 +559,8 @@ class simplify_chained_calls(FuncADLNodeTransformer):
         """
         # Get the value out - this is due to supporting python 3.7-3.9
         n = s.value
-        if not isinstance(n, int):
+        if not isinstance(n, int) or any(isinstance(e, ast.Starred) for e in v.elts):
+            # With a `*` element the positions are only known when it runs.
             return ast.Subscript(v, s, ast.Load())  # type: ignore
         if n >= len(v.elts):
             raise FuncADLIndexError(
@@ -576,7 +577,7 @@ class simplify_chained_calls(FuncADLNodeTransformer):
         Only works if index is a number
         """
         n = s.value
-        if not isinstance(n, int):
+        if not isinstance(n, int) or any(isinstance(e, ast.Starred) for e in v.elts):
             return ast.Subscript(v, s, ast.Load())  # type: ignore
         if n >= len(v.elts):
             raise FuncADLIndexError(
@@ -597,11 +598,12 @@ class simplify_chained_calls(FuncADLNodeTransformer):
 
     def visit_Subscript_Dict_with_value(self, v: ast.Dict, s: Union[str, int]):
         "Do the lookup for the dict"
-        for index, value in enumerate(v.keys):
-            assert isinstance(value, ast.Constant)
-            if value.value == s:
-                return copy.deepcopy(v.values[index])
-
+        if all(isinstance(key, ast.Constant) for key in v.keys):
+            # As in python, the last of several equal keys is the one that counts.
+            for key, value in zip(reversed(v.keys), reversed(v.values)):
+                if key.value == s:  # type: ignore
+                    return copy.deepcopy(value)
+        # Not there, or a `**` or a computed key: what is in it is only known when it runs.
         return ast.Subscript(v, ast.Constant(value=s), ast.Load())  # type: ignore
 
     def visit_Subscript_Of_First(self, first: ast.expr, s):
